@@ -100,6 +100,27 @@ class Obj:
         return f'<{self.cls.name} object>'
 
 
+class NTObj(Obj):
+    """instance of a typing.NamedTuple class: immutable record, iterable in field order"""
+    def iterate(self, I, node):
+        return [self.attrs[f] for f in self.cls.nt_fields]
+
+    def getitem(self, I, k, node):
+        if isinstance(k, int):
+            try:
+                return self.iterate(I, node)[k]
+            except IndexError:
+                raise PyRaise('IndexError', 'tuple index out of range', node)
+        raise CheckerError('symbolic index into a named tuple')
+
+    def py_eq(self, I, other, node):
+        if isinstance(other, NTObj):
+            return I.py_eq(tuple(self.iterate(I, node)), tuple(other.iterate(I, node)), node)
+        if isinstance(other, tuple):
+            return I.py_eq(tuple(self.iterate(I, node)), other, node)
+        return False
+
+
 class ModuleVal:
     def __init__(self, name, rel):
         self.name, self.rel = name, rel
@@ -661,6 +682,15 @@ class Interp:
             else:
                 raise CheckerError(f'unsupported class body statement at {module.rel}:{s.lineno}')
         cls.dc = dataclass_info(st)
+        cls.nt_fields = None
+        if any(getattr(b, '__name__', None) == 'NamedTuple' for b in bases):
+            cls.nt_fields = []
+            cls.nt_defaults = {}
+            for s_ in st.body:
+                if isinstance(s_, ast.AnnAssign) and isinstance(s_.target, ast.Name):
+                    cls.nt_fields.append(s_.target.id)
+                    if s_.value is not None:
+                        cls.nt_defaults[s_.target.id] = cls.attrs.get(s_.target.id)
         for d in st.decorator_list:
             dn = d.func if isinstance(d, ast.Call) else d
             if not (isinstance(dn, ast.Name) and dn.id == 'dataclass'):
@@ -700,6 +730,8 @@ class Interp:
                 self.assign(e, x, env, module)
         elif isinstance(t, ast.Attribute):
             o = self.eval(t.value, env, module)
+            if isinstance(o, NTObj):
+                raise PyRaise('AttributeError', "can't set attribute", t)
             if isinstance(o, Obj):
                 o.attrs[t.attr] = v
             elif isinstance(o, Z):
@@ -947,18 +979,30 @@ class Interp:
         self.nofork = getattr(self, 'nofork', 0) + 1
         try:
             vals = []
+            decisive = isinstance(e.op, ast.Or)
             for sub in e.values:
                 v = self.eval(sub, env, module)
                 if isinstance(v, bool):
-                    vals.append(z3.BoolVal(v))
+                    if v is decisive:
+                        break                       # short circuit: later operands are not evaluated
+                    continue
                 elif isinstance(v, Z) and self.sort_name(v) == 'Bool':
                     vals.append(v.e)
                 else:
                     return None
-            return self.wrap(z3.And(*vals) if isinstance(e.op, ast.And) else z3.Or(*vals))
+            else:
+                if not vals:
+                    return not decisive
+                return self.wrap(z3.And(*vals) if isinstance(e.op, ast.And) else z3.Or(*vals))
+            if not vals:
+                return decisive
+            # a concrete decisive operand after symbolic ones: the symbolic ones were evaluated first, as python does
+            return self.wrap(z3.Or(*vals, z3.BoolVal(True))) if decisive else self.wrap(z3.And(*vals, z3.BoolVal(False)))
         except _NeedFork:
             return None
         except PyRaise:
+            return None
+        except CheckerError:
             return None
         finally:
             self.nofork -= 1
@@ -1075,8 +1119,15 @@ class Interp:
         raise CheckerError(f'`is` on {a!r}, {b!r} unsupported at line {node.lineno}')
 
     def py_eq(self, a, b, node):
+        for x, y in ((a, b), (b, a)):
+            if hasattr(x, 'py_eq_first'):
+                r = x.py_eq_first(self, y, node)
+                if r is not None:
+                    return r
         # user-defined __eq__ of the left operand first (Python semantics), then reflected
         for x, y in ((a, b), (b, a)):
+            if isinstance(x, NTObj):
+                continue
             if isinstance(x, Z) and self.sort_name(x) in ('Cat', 'Feat') or isinstance(x, Obj):
                 meth = self.getattr(x, '__eq__', node, default=None)
                 if meth is not None:
@@ -1135,6 +1186,9 @@ class Interp:
         if isinstance(cont, str):
             if isinstance(item, str):
                 return item in cont
+            if self._strish(item) and len(cont) > 8:
+                self.used_lib.add('str.__contains__ on a literal container = str.contains')
+                return self.wrap(z3.Contains(z3.StringVal(cont), item.e))
             if self._strish(item):
                 subs = sorted({cont[i:j] for i in range(len(cont) + 1) for j in range(i, len(cont) + 1)})
                 self.used_lib.add('str.__contains__ on a literal container = disjunction over its substrings')
@@ -1363,8 +1417,10 @@ class Interp:
         if isinstance(o, Obj):
             return self.call(self.getattr(o, '__getitem__', node), [k], {}, node)
         if not isinstance(o, (Z, Foreign, FuncVal, ClassVal)) and not is_native(o):
+            if getattr(o, '__module__', None) in ('typing', 'collections.abc', 'types') or type(o).__module__ == 'typing':
+                return Foreign()          # a type annotation object: never used as a value
             try:
-                return o[k]       # typing generics etc.
+                return o[k]
             except Exception:
                 pass
         raise CheckerError(f'subscript of {o!r} unsupported at line {node.lineno}')
@@ -1555,6 +1611,23 @@ class Interp:
             return Z(z3.simplify(w.ctor(cls.name)(*zargs)))
         if cls.dc is not None:
             raise CheckerError(f'dataclass {cls.name} is not modelled')
+        if getattr(cls, 'nt_fields', None) is not None:
+            o = NTObj(cls)
+            if len(args) > len(cls.nt_fields):
+                raise PyRaise('TypeError', f'{cls.name}() takes {len(cls.nt_fields)} positional arguments', node)
+            vals = dict(zip(cls.nt_fields, args))
+            for k, v in kwargs.items():
+                if k not in cls.nt_fields or k in vals:
+                    raise PyRaise('TypeError', f'{cls.name}() got an unexpected keyword argument {k}', node)
+                vals[k] = v
+            for fn in cls.nt_fields:
+                if fn not in vals:
+                    if fn in cls.nt_defaults:
+                        vals[fn] = cls.nt_defaults[fn]
+                    else:
+                        raise PyRaise('TypeError', f'{cls.name}() missing required argument {fn}', node)
+            o.attrs = {fn: vals[fn] for fn in cls.nt_fields}
+            return o
         o = Obj(cls)
         init, _ = cls.lookup('__init__')
         if init is not None:
